@@ -1,6 +1,6 @@
 SPECIFICATION Spec
 CONSTANTS
-  MaxLen = 3
-  PairLen = 2
+  MaxLen = 4
+  PairLen = 3
 INVARIANT Emit
 CHECK_DEADLOCK FALSE
